@@ -20,6 +20,10 @@ def run(prog, chk, tier):
     hdr = bec2.header_reader_rules(prog, chk, "C07")
     bec2.key_flow_rules(prog, chk, "C07", hdr)
     bec2.ecies_rules(prog, chk, "C07")
+    # the ephemeral point an ECC block carries is the raw form of the key object: header added / removed exactly
+    from rules import c09
+
+    c09.header_rules(prog, chk, "C07")
     stackrt.guarded(chk, "C07.stack-bf3", stackfile.bf3_file_rules, prog, chk, "C07", tier, want=("rekey",))
     stackrt.guarded(chk, "C07.stack-bec2", stackbec2.bec2_file_rules, prog, chk, "C07", tier, want=("same-key", "fresh"))
     chk.assume("os.urandom and SigningKey.generate(entropy=None) deliver fresh randomness (not a static property)")
